@@ -177,7 +177,7 @@ Lemma tstep_promotion v c n t :
   | _ => False
   end.
 Proof.
-  destruct n as [st e p ps k cnt d], v as [fh fi ff fs fa], c as [id pr pre dec nifs].
+  destruct n as [st e p ps k cnt d], v as [fh fi ff fs fa], c as [id pr pre dec nifs ov].
   destruct t; cbn -[wins tracked track_update if_delta adjust_priority];
     unfold peer_discovered, elect, hb_update, peer_lost, tracker_promote, transition_to, set_peer;
     cbn -[wins tracked track_update if_delta adjust_priority].
@@ -227,7 +227,7 @@ Qed.
 (* the value AdjustPriority computes from a down count *)
 Definition eff_code (c : cfg) (cnt : Z) : Z :=
   let newp := i32 (i32 (c_prio c) + i32 (i32 (- i32 (c_dec c)) * i32 cnt)) in
-  if newp <? 0 then 0 else newp.
+  if cfg_smallb c then (if newp <? 0 then 0 else newp) else c_over c cnt.
 Definition eff_ok (c : cfg) (n : node) : Prop := n_eff n = eff_code c (n_cnt n).
 Definition not_adj (t : thr) : bool := match t with TIfAdj _ _ => false | _ => true end.
 
@@ -314,9 +314,10 @@ Proof.
       rewrite Hon, Hot. apply Inv.
 Qed.
 
-Lemma eff_code_zero c : 0 <= c_prio c < 2147483648 -> eff_code c 0 = c_prio c.
+Lemma eff_code_zero c : cfg_small c -> eff_code c 0 = c_prio c.
 Proof.
-  intros H. unfold eff_code. rewrite Z.mul_0_r. change (i32 0) with 0.
+  intros Hs. unfold eff_code. rewrite (cfg_small_b c Hs). destruct Hs as (H & _).
+  rewrite Z.mul_0_r. change (i32 0) with 0.
   rewrite (i32_id (c_prio c)) by lia. rewrite Z.add_0_r, (i32_id (c_prio c)) by lia.
   destruct (Z.ltb_spec (c_prio c) 0); lia.
 Qed.
@@ -324,7 +325,7 @@ Qed.
 (* under every interleaving of critical sections: the effective priority is the one AdjustPriority
    computes from the CURRENT down count *)
 Lemma fine_priority_matches_count v cs es w :
-  fix_ia v = true -> 0 <= c_prio (fst cs) < 2147483648 -> 0 <= c_prio (snd cs) < 2147483648 ->
+  fix_ia v = true -> cfg_small (fst cs) -> cfg_small (snd cs) ->
   let n := node_of w (f_p (frun v cs (finit cs) es)) in
   n_eff n = eff_code (cfg_of w cs) (n_cnt n).
 Proof.
